@@ -261,7 +261,7 @@ void reb_rotation_to_orbital(struct reb_rotation q, double* Omega, double* inc, 
             *omega = 2.0 * half_sum;
         }else{
             double half_diff = atan2(dp, cp);
-            *omega = 2.0 * half_diff;
+            *omega = -2.0 * half_diff; // Omega - omega = 2*half_diff and Omega is set to 0
         }
     }
     if (*omega < 0){
